@@ -81,4 +81,17 @@ class Check(ParCheck):
             if not ok:
                 path = engine.write_replay(self.prop, 'stress', text, ["uninstrumented 16-thread stress: counts or response multiset not conserved", line[:500]])
                 rep.violation(path, f"16-thread stress run lost or duplicated positions: {line[:200]}")
+        # the same through ONE shared &Unimock, each answer lending a value of its own via make_ref and reading it back
+        tree2 = term(1, 'each', Pat(mask=255, chain=[seg('ans16', '-')]))
+        text2 = par_scenario('stress', 'strict', tree2, [[(1, 0), (1, 1)]] * 16, True)
+        real2, _ = run_real(text2, 0, 0, seed, stress=max(400, reps // 4))
+        line2 = next((l for l in real2['stress'] if l.startswith('stress ')), '')
+        m2 = re.search(r'calls=(\d+) hist=(\S*) ', line2)
+        info['shared_lending'] = line2[:200]
+        if m2:
+            hist2 = dict(x.rsplit('x', 1) for x in m2.group(2).split(',') if x)
+            calls2 = int(m2.group(1))
+            if int(hist2.get('ret:-160', 0)) + int(hist2.get('ret:-161', 0)) != calls2:
+                path = engine.write_replay(self.prop, 'stress', text2, ["uninstrumented 16-thread stress on one shared &Unimock: a call did not get its own response (each answer lends a unique value via make_ref and reads it back)", line2[:500]])
+                rep.violation(path, f"16-thread stress on a shared &Unimock: a call was given another call's response: {line2[:200]}")
         return info
